@@ -82,10 +82,10 @@ IncrPP(vs, t) == IncTimes(Shift(Rescale(vs, 2 * Total(vs))), t, <<>>)
 \* ------------------------------------------------------------- updateWithChangeSet
 IsMember(vs, k) == \E i \in 1..Len(vs) : vs[i].k = k
 Get(vs, k) == vs[CHOOSE i \in 1..Len(vs) : vs[i].k = k]
-RemoveAt(s, i) == SubSeq(s, 1, i - 1) \o SubSeq(s, i + 1, Len(s))
+DropAt(s, i) == SubSeq(s, 1, i - 1) \o SubSeq(s, i + 1, Len(s))
 RECURSIVE SortByK(_)
 SortByK(s) == IF Len(s) = 0 THEN <<>>
-              ELSE LET i == CHOOSE i \in 1..Len(s) : \A j \in 1..Len(s) : s[i].k <= s[j].k IN <<s[i]>> \o SortByK(RemoveAt(s, i))
+              ELSE LET i == CHOOSE i \in 1..Len(s) : \A j \in 1..Len(s) : s[i].k <= s[j].k IN <<s[i]>> \o SortByK(DropAt(s, i))
 HasDup(s) == \E i, j \in 1..Len(s) : i < j /\ s[i].k = s[j].k
 \* verifyUpdates: partial sums in address order, total BEFORE removals
 RECURSIVE VerifyUpdates(_, _, _, _, _)
@@ -145,8 +145,9 @@ New(pw) ==
      /\ LET r == IF Len(ch) > 0 THEN IncrPP(u.vs, 1) ELSE [vs |-> u.vs, props |-> <<>>]
             pr == IF Len(ch) > 0 THEN r.props[1] ELSE 0 IN
         /\ vals' = r.vs /\ proposer' = pr /\ props' = r.props
-        /\ hist' = Append(hist, [act |-> "New", pw |-> pw, reply |-> "ok", exact |-> TRUE, st |-> St(r.vs, pr)])
-  /\ made' = TRUE /\ fresh' = TRUE /\ exact' = TRUE
+        /\ hist' = Append(hist, [act |-> "New", pw |-> pw, reply |-> "ok", exact |-> ~\E k \in 1..Len(pw) : Big(pw[k]),
+                                 st |-> St(r.vs, pr)])
+  /\ made' = TRUE /\ fresh' = TRUE /\ exact' = ~\E k \in 1..Len(pw) : Big(pw[k])
 
 Incr(t) ==
   /\ made /\ Len(hist) < MaxLen
@@ -170,9 +171,9 @@ Update(ch) ==
 
 FairDone == made /\ Len(props) >= 2 * Total(vals) + 1
 Next == IF FairOnly
-        THEN \/ \E pw \in InitSets : Total(FromVector(pw, 1)) > 0 /\ New(pw)
-             \/ ~FairDone /\ Incr(1)
-        ELSE \/ \E pw \in InitSets : New(pw)
+        THEN \/ ~made /\ \E pw \in InitSets : Total(FromVector(pw, 1)) > 0 /\ New(pw)
+             \/ made /\ ~FairDone /\ Incr(1)
+        ELSE \/ ~made /\ \E pw \in InitSets : New(pw)
              \/ \E t \in Times : Incr(t)
              \/ \E ch \in ChangeLists : Update(ch)
 
@@ -182,13 +183,15 @@ Next == IF FairOnly
 \* drawn list is bound by \E so that every use in Update sees the same value)
 ChangeSeq == SetToSeq(ChangeLists)
 Draw == ChangeSeq[RandomElement(1..(IF made THEN Len(ChangeSeq) ELSE 1))]
-NextSim == \/ \E pw \in InitSets : New(pw)
+NextSim == \/ ~made /\ \E pw \in InitSets : New(pw)
            \/ \E t \in Times : Incr(t)
            \/ \E c \in {Draw} : Update(c)
            \/ \E c \in {Draw} : Update(c)
 
 Spec == Init /\ [][Next]_<<vars, hist>>
-View == vars
+\* the guards bound Len(hist), so the depth belongs to the view (otherwise which edges get explored
+\* would depend on the order in which TLC's workers reach a state)
+View == <<vars, Len(hist)>>
 
 \* ------------------------------------------------------------- properties (C37)
 Count(s, k) == Cardinality({i \in 1..Len(s) : s[i] = k})
